@@ -13,6 +13,7 @@ CONSTANTS
   ReadFaultKinds <- RF_tomb
   AllowSoleRecordLoss = FALSE
   AllowIntraSetCollision = FALSE
+  RelevantSignersOnly = TRUE
 SPECIFICATION Spec
 VIEW View
 INVARIANTS W_NeverEarned W_NeverRevAcc W_NeverRevOnly W_NeverFailClosedW W_NeverMissing W_NeverRemoved W_NeverReappear W_NeverMarkerKept W_NeverTombUsed
